@@ -27,4 +27,70 @@ func SnapshotStore.PutBatch
 func Cache.Get
 func Cache.Set
   modifies everything
+
+// ---- C18: gossip is bounded and the topology is only touched under its lock ---------
+
+// every read or write of the role map needs the topology's mutex
+guarded Topology.m by Topology.Mutex except NewTopology
+
+// the role map exists and holds no nil list (established by NewTopology, kept by Update)
+define TopoOK(t) = t.m != nil && (forall r string :: has(t.m, r) ==> t.m[r] != nil)
+
+func NewPeerList
+  ensures result != nil && fresh(result)
+
+func Topology.Update
+  props C18
+  requires p != nil && TopoOK(t)
+  modifies everything
+func Topology.Delete
+  props C18
+  requires p != nil
+  // memberlist only reports a leave for a peer it reported before: its role is known
+  requires has(t.m, p.Meta.Role) && t.m[p.Meta.Role] != nil
+  modifies everything
+func Topology.Get
+  props C18
+func Topology.Each
+  props C18
+  requires TopoOK(t)
+  modifies everything
+  loop 1 invariant TopoOK(t)
+
+func PeerList.Update
+  modifies everything
+func PeerList.Delete
+  modifies everything
+func PeerList.Exclude
+  ensures result != nil
+func PeerList.Shuffle
+  modifies l.L[*]
+  ensures result == l
+func PeerList.Take
+func PeerList.Append
+  modifies l.L
+
+// encoding reads the message and allocates the wire form
+func Message.Encode
+
+// UNVERIFIED (no check claims it yet): route builds a fresh list of non-nil nodes
+// and changes nothing that existed before (Exclude filters into a new list,
+// which is then shuffled and cut)
+func Agent.route
+  ensures fresh(result)
+  ensures forall i int :: 0 <= i && i < len(result) ==> result[i] != nil
+
+immutable Agent.gossip, Agent.log, Agent.topology by NewAgent, NewAgentFromConfig, NewDefaultAgent, SetLogger.$1, Agent.Start
+immutable Topology.m by NewTopology
+
+// what the agent hands to the transport is counted by the ghost `sent`
+func Agent.Send
+  props C18
+  requires msg != nil && a.gossip != nil && !isnil(a.log)
+  modifies msg.TTL, msg.From, sent
+  // a message whose time-to-live is exhausted dies here: nothing is sent, it is left untouched
+  ensures C18/exhausted-not-forwarded: old(msg.TTL) <= 0 ==> sent == old(sent) && msg.TTL == old(msg.TTL)
+  // every hop lowers the time-to-live
+  ensures C18/hop-decrements: old(msg.TTL) > 0 ==> msg.TTL == old(msg.TTL) - 1
+  loop 1 modifies sent
 @*/
